@@ -256,9 +256,9 @@ def sub_threads(case):
     tyx = np.ascontiguousarray(np.array(case["values"], dtype="float64").reshape(ny, nx, nt).transpose(2, 0, 1).astype("int16"))
     for (r, c, series) in case.get("threshold_pixels", []):
         # pixels whose lag-1 correlation is exactly 0.5 (state carried from a neighbour would show as a thread-count dependence)
-        if r < ny and c < nx and nt >= len(series):
-            tyx[:, r, c] = -3000
-            tyx[:len(series), r, c] = series
+        if nt >= len(series):
+            tyx[:, r % ny, c % nx] = -3000
+            tyx[:len(series), r % ny, c % nx] = series
     old = numba.get_num_threads()
     try:
         numba.set_num_threads(1)
@@ -432,7 +432,7 @@ def run(ctx):
         sub_threads(case)
 
     from harness import gens as _g
-    thp = st.lists(st.tuples(st.integers(0, 39), st.integers(0, 5), _g.exact_half_series()), max_size=6)
+    thp = st.lists(st.tuples(st.integers(0, 39), st.integers(0, 5), _g.exact_half_series()), max_size=10)
     def _th(ny, nx, nt, v, ks, tp):
         if tp:
             nt = 6  # the exact-half templates have six steps; trailing gaps would move their correlation off the threshold
